@@ -625,12 +625,21 @@ def property_predicate(case, impl, parallel):
 
 
 # ------------------------------------------------------------------ check body
+def stable_key(why_key: str) -> str:
+    """known input classes are one finding each whatever the symptom (crash / count / label)"""
+    for cls in ("dim-names:detector-field-vs-model-argument", "dim-names:same-model-name-in-two-groups",
+                "sequential-mode×with_dask:create_params-zips", "id-modes:vector-parameters-of-different-length:dim_0"):
+        if why_key.startswith(cls):
+            return cls
+    return why_key
+
+
 def check_case(ck, case, ans, stream, parallel, impl=None):
     impl = impl if impl is not None else run_impl(case, with_dask=parallel)
     model = model_entries(case, ans, parallel)
     why = property_predicate(case, impl, parallel)
     if why is not None:
-        ck.violation("C05:" + why[0], why[1], {"case": case, "parallel": parallel, "impl": impl})
+        ck.violation("C05:" + stable_key(why[0]), why[1], {"case": case, "parallel": parallel, "impl": impl})
     if "error" in impl or "error" in model:
         if ("error" in impl) != ("error" in model):
             ck.disagreement(stream, case, impl.get("error", "ok"), model.get("error", "ok"))
